@@ -62,11 +62,17 @@ type c02Case struct {
 	kind string
 	desc string
 	m    *refdns.Msg
-	inC  bool // encode input with compression pointers
+	inC  bool   // encode input with compression pointers
+	pre  []byte // if set: bytes fed to the decoder (and normally rejected) before the message under test
 }
 
 // checkOne runs the oracle on one abstract message; returns an observation string.
 func c02Check(rep *report.R, c c02Case, replay any) {
+	if c.pre != nil {
+		if m, err := vUnpack(c.pre); err == nil {
+			ReleaseMsg(m)
+		}
+	}
 	in := c.m.Encode(c.inC)
 	want := c.m.Canon()
 	pm, err := vUnpack(in)
@@ -269,6 +275,36 @@ func c02Enumerate(names []refdns.Name, recs []refdns.RR, maxRec, slots int, emit
 				m := &refdns.Msg{ID: 9, Bits: refdns.BitQR, Q: []refdns.Q{{Name: refdns.N("a"), Type: 1, Class: 1}},
 					An: []refdns.RR{bigrr, refdns.NameRR(refdns.TypeCNAME, n, 1, n), refdns.NameRR(refdns.TypeCNAME, n, 1, n)}}
 				emit(c02Case{kind: "far", desc: fmt.Sprintf("name %s first seen beyond offset 0x4000, inputCompressed=%v", n, inC), m: m, inC: inC})
+			}
+		}
+	}
+	// (after-malformed) a rejected input must not disturb the codec state used by later messages:
+	// every prefix of, and every RDLENGTH lie in, a few seed messages is decoded (and rejected) first
+	{
+		N := refdns.N
+		victim := &refdns.Msg{ID: 3, Bits: refdns.BitQR, Q: []refdns.Q{{Name: N("example", "org"), Type: 1, Class: 1}},
+			An: []refdns.RR{refdns.NameRR(refdns.TypeCNAME, N("example", "org"), 5, N("example", "net")), refdns.MX(N("example", "net"), 5, 1, N("mail", "example", "com"))}}
+		seeds := []*refdns.Msg{
+			{ID: 1, Bits: refdns.BitQR, Q: []refdns.Q{{Name: N("poison", "test"), Type: 1, Class: 1}}, An: []refdns.RR{refdns.A(N("poison", "test"), 1, 1, 2, 3, 4), refdns.MX(N("poison", "abcd"), 1, 1, N("mx", "poison", "efgh"))}},
+			{ID: 2, Bits: refdns.BitQR, An: []refdns.RR{refdns.SOA(N("poisons", "xyz"), 1, N("ns", "poisons", "xyz"), N("root", "poison", "uvw"), 1), refdns.SRV(N("s"), 1, 1, 1, 1, N("target", "poison"))}},
+		}
+		for si, sd := range seeds {
+			for _, comp := range []bool{false, true} {
+				w := sd.Encode(comp)
+				var bads [][]byte
+				for l := 12; l < len(w); l++ {
+					bads = append(bads, w[:l])
+				}
+				for p := 12; p+1 < len(w); p++ {
+					for _, v := range []byte{0, 1, 0xFF} {
+						b := append([]byte(nil), w...)
+						b[p] = v
+						bads = append(bads, b)
+					}
+				}
+				for bi, bad := range bads {
+					emit(c02Case{kind: "after-malformed", desc: fmt.Sprintf("after rejecting variant %d of seed %d (compressed=%v): %x", bi, si, comp, bad), m: victim, pre: bad})
+				}
 			}
 		}
 	}
